@@ -238,6 +238,12 @@ def query_regions(q) -> set:
                 rep_arg.append(1)
     _walk(q.get("conds", []), fn)
     _walk(q.get("rule", {}), fn)
+    # constructor arguments of rule heads / Add conclusions are evaluated like predicate arguments
+    for args in _ctor_args(q):
+        vs = [repr(_root_var(a)) for a in args.values()]
+        vs = [v for v in vs if v != "None"]
+        if len(vs) != len(set(vs)):
+            rep_arg.append(1)
     disj = bool(disj_under_not)        # a disjunction after the engine's De Morgan rewriting
     out = set()
     if disj and "forall" in kinds:
@@ -252,6 +258,30 @@ def query_regions(q) -> set:
         out.add("disjunction_over_different_variables")
     if mixed_conj_in_disj:
         out.add("disjunction_of_multi_variable_conjunction")
+    if _rule_kinds(q.get("rule") or {}) & {"alternative", "next"}:
+        out.add("rule_tree_with_alternative_or_next")
+    return out
+
+
+def _ctor_args(q):
+    out = []
+    if q.get("head"):
+        out.append(q["head"][1])
+
+    def walk(node):
+        if node.get("add"):
+            out.append(node["add"][1])
+        for ch in node.get("children", []):
+            walk(ch["node"])
+    walk(q.get("rule") or {})
+    return out
+
+
+def _rule_kinds(node):
+    out = set()
+    for ch in node.get("children", []):
+        out.add(ch["kind"])
+        out |= _rule_kinds(ch["node"])
     return out
 
 
@@ -302,7 +332,8 @@ def gen_world_and_pool(rng, cfg, want_region=None, tries=60):
             need = {"disjunction+for_all": ["forall"], "disjunction+flatten": ["flat"],
                     "disjunction+nested_query": ["nest"], "predicate_with_repeated_variable": ["fp", "cp"],
                     "disjunction_over_different_variables": [],
-                    "disjunction_of_multi_variable_conjunction": []}[want_region]
+                    "disjunction_of_multi_variable_conjunction": [],
+                    "rule_tree_with_alternative_or_next": []}[want_region]
             if want_region == "disjunction_of_multi_variable_conjunction":
                 cfg["depth"] = max(cfg["depth"], 2)
             if want_region in ("disjunction_over_different_variables", "disjunction_of_multi_variable_conjunction"):
